@@ -156,11 +156,14 @@ def forward (D : Dom) (prog : Prog) (ann : Ann D) : Bool :=
   (List.range prog.length).all fun pc =>
     match prog[pc]?, D.at ann pc with
     | some i, some a =>
-      ((D.tf i.cmd a true).isNone || decide (pc < i.ok)) && ((D.tf i.cmd a false).isNone || decide (pc < i.fail))
+      (match i.cmd with
+       | .exit _ => true
+       | _ => false) ||
+      (((D.tf i.cmd a true).isNone || decide (pc < i.ok)) && ((D.tf i.cmd a false).isNone || decide (pc < i.fail)))
     | _, _ => true
 
 theorem forward_at {D : Dom} {prog : Prog} {ann : Ann D} (h : forward D prog ann = true) {pc : Nat} {i : Instr}
-    {a : D.F} (hi : prog[pc]? = some i) (ha : D.at ann pc = some a) :
+    {a : D.F} (hi : prog[pc]? = some i) (ha : D.at ann pc = some a) (hne : ∀ n, i.cmd ≠ .exit n) :
     (∀ x, D.tf i.cmd a true = some x → pc < i.ok) ∧ (∀ x, D.tf i.cmd a false = some x → pc < i.fail) := by
   simp only [forward, List.all_eq_true, List.mem_range] at h
   have hlt : pc < prog.length := by
@@ -169,6 +172,7 @@ theorem forward_at {D : Dom} {prog : Prog} {ann : Ann D} (h : forward D prog ann
     · have := List.getElem?_eq_none h1; simp [this] at hi
   have := h pc hlt
   simp only [hi, ha, Bool.and_eq_true, Bool.or_eq_true, decide_eq_true_eq] at this
+  simp only [Bool.false_eq_true, false_or] at this
   constructor
   · intro x hx; rcases this.1 with h1 | h1
     · simp [hx] at h1
@@ -221,7 +225,6 @@ theorem calm_step {prog : Prog} {ann1 : Ann safety} {ann2 : Ann numbering} {ann 
   have hi : instrAt prog p.pc = some prog[p.pc] := by simp [instrAt, hlt]
   generalize prog[p.pc] = i at hi
   obtain ⟨hreq, _, _, hedge1, hedge2⟩ := check_step hc (by simpa [instrAt] using hi) ha
-  obtain ⟨hfw1, hfw2⟩ := forward_at hfw (by simpa [instrAt] using hi) ha
   have hoth' : ∀ p' : Proc, p'.pid = pid → ∀ q ∈ replaceProc s.procs p', q.pid ≠ pid → q.alive = false := by
     intro p' hp' q hq hqp
     rcases mem_replaceProc hq with ⟨rfl, _⟩ | ⟨hq1, _⟩
@@ -243,6 +246,7 @@ theorem calm_step {prog : Prog} {ann1 : Ann safety} {ann2 : Ann numbering} {ann 
     refine ⟨⟨hoth' _ hpp, _, hfp, Or.inr ⟨rfl, rfl, ?_⟩⟩, _, hfp, fun h => by simp at h⟩
     rw [newest_release]; exact hΓ.c.newestF hnew
   · have hne : ∀ n, i.cmd ≠ .exit n := fun n h => hex ⟨n, h⟩
+    obtain ⟨hfw1, hfw2⟩ := forward_at hfw (by simpa [instrAt] using hi) ha hne
     rw [stepProc_nonexit hi hne]
     obtain ⟨x, hx, hΓ'⟩ := own3 (i := i) hΓ h1.gi h2.dh h2.vg (h2.vp p hpm) h2.n hreq
     have hpid : (after i s.g p).pid = pid := by rw [after_pid]; exact hpp
